@@ -51,6 +51,7 @@ ASSUMPTIONS = [
     "library presets (BYOL/MUGS/Imagenet*) contain non-scalable members with ranges: collapse/identity/gates are not judged on them; presets whose constructor fails with default arguments are listed in unconstructible_presets, not judged",
     "classes not reporting supports_scale_strength() (e.g. KDRandomApply, KDScheduledTransform itself) are outside the quantifier",
     "scheduled below an InterleavedSampler: only MAIN samples are judged, n_batches comes from the main dataset's own length; with >= 2 workers every interleaved block is generated as a multiple of W batches (torch deals main and side batches to the workers alike, the per-worker counter only sees main batches - other block sizes are outside what the counter can support and are not driven); real loaders from get_data_loader() with 0..1 workers",
+    "scheduled: calls made before worker_init_fn configured the schedule (main-process peeks, 0..batch_size+1 of them) are unscheduled and must not shift the batch index of the later pass",
     "scheduled: full batches only; with samples % batch_size != 0 only the full batches are judged; one pass over the loader (worker re-creation between epochs is outside the claim); torch assigns batch b to worker b % num_workers",
 ]
 MONITORS = ["restore_checked", "collapse_checked", "identity_checked", "monotone_checked", "compounding_checked",
@@ -191,6 +192,11 @@ def _gen_sched(rng, recipes, loader):
         span = E * per
     spec["schedule"] = S.gen_schedule(rng, span)
     spec["np_seed"] = rng.randrange(2 ** 31)
+    # history step: the pipeline / dataset is called k times in the main process (e.g. ds[0] to look at a sample) before
+    # the workers are created and worker_init_fn configures the schedule
+    Bp = spec["B"]
+    spec["peeks"] = rng.choice([0, 0, 1, 2, max(Bp - 1, 1), Bp + 1, 1, Bp + 1])
+    spec["peek_ctx"] = rng.random() < 0.5
     return spec
 
 
@@ -227,6 +233,11 @@ def _gen_sched_inter(rng, recipes, loader):
             break
     spec["schedule"] = sch
     spec["np_seed"] = rng.randrange(2 ** 31)
+    # history step: the pipeline / dataset is called k times in the main process (e.g. ds[0] to look at a sample) before
+    # the workers are created and worker_init_fn configures the schedule
+    Bp = spec["B"]
+    spec["peeks"] = rng.choice([0, 0, 1, 2, max(Bp - 1, 1), Bp + 1, 1, Bp + 1])
+    spec["peek_ctx"] = rng.random() < 0.5
     return spec
 
 
@@ -686,7 +697,7 @@ def _check_sample(run, spec, where, b, expected, ctx_flat, draws, out, ref, u):
         return
     if got != float(expected):
         run.violation("scheduled:strength-value", f"{where}: sample of global batch {b}: ctx strength {got!r}, schedule value at {b} is {expected!r} "
-                      f"(W={spec['W']}, B={spec['B']}, init={spec['init']}, n={spec['n']})")
+                      f"(W={spec['W']}, B={spec['B']}, init={spec['init']}, n={spec['n']}, calls before worker_init_fn={spec.get('peeks', 0)})")
         return
     o = ref.obs(expected, u)
     if o is None:
@@ -703,6 +714,22 @@ def _check_sample(run, spec, where, b, expected, ctx_flat, draws, out, ref, u):
                       f"that value: " + "; ".join(diffs[:4]))
 
 
+def _peek(run, spec, root, x, n_items):
+    """k unscheduled calls in the main process before workers exist; -> False if one of them failed"""
+    for j in range(spec.get("peeks", 0)):
+        if hasattr(root, "__getitem__"):
+            call = lambda: root[j % max(n_items, 1)]
+        elif spec.get("peek_ctx"):
+            call = lambda: root(R.clone_input(x), {})
+        else:
+            call = lambda: root(R.clone_input(x))
+        ok, _ = call_real(run, call, crash_key="scheduled-call-crash", what=f"call {j} of the pipeline in the main process before worker_init_fn")
+        if not ok:
+            return False
+        run.count("sched_peeks_before_init")
+    return True
+
+
 def _run_sched_sim(run, spec):
     x = P.make_input(spec["input"])
     _, ref_value = S.schedule_arg_and_reference(spec["schedule"])
@@ -716,6 +743,8 @@ def _run_sched_sim(run, spec):
     pipe = built[0]
     level = spec["level"]
     root = pipe if level == "transform" else S.make_stack(pipe, B * n_full, x)
+    if not _peek(run, spec, root, x, B * n_full):
+        return
     workers = [copy.deepcopy(root) for _ in range(nW)]     # what forking the loader's dataset does
     ctxm = (lambda w: S.as_worker(w, W, dataset=workers[w])) if W > 0 else (lambda w: contextlib.nullcontext())
     for w in range(nW):
@@ -774,6 +803,8 @@ def _run_sched_loader(run, spec):
         return
     epochs = spec.get("epochs", 1) if spec["init"] == "epochs" else 1
     stack = S.make_stack(built[0], B * n_full // epochs, x)
+    if not _peek(run, spec, stack, x, len(stack)):
+        return
     where = f"DataLoader(num_workers={W}, batch_size={B}), pipeline {spec['wrap']} around {spec['inner']['cls']}, schedule {spec['schedule']['type']}"
     ref = _Reference(run, spec, x)
     for b in range(n_full):
@@ -843,6 +874,8 @@ def _run_sched_inter(run, spec):
         return
     ok, sampler = call_real(run, lambda: _inter_sampler(spec, built[0], x), crash_key="interleaved-ctor-crash", what="building the InterleavedSampler")
     if not ok:
+        return
+    if not _peek(run, spec, sampler.dataset, x, spec["main_len"]):     # indices below main_len address the main dataset
         return
     ref = _Reference(run, spec, x)
     hf = _hook_factory(spec)
